@@ -391,6 +391,22 @@ impl<'a> Judge<'a> {
                 }
             }
         }
+        // bulk records (counted, not listed): every one of them has its own id
+        {
+            let mut seen: HashMap<u64, usize> = HashMap::new();
+            let mut bulk = 0usize;
+            for (ei, e) in self.m.erecs.iter().enumerate() {
+                if e.count > 1 {
+                    for &mi in &self.by_erec[ei] {
+                        bulk += 1;
+                        *seen.entry(self.matched[mi].rec.id).or_insert(0) += 1;
+                    }
+                }
+            }
+            if seen.len() < bulk {
+                out.push(f("tree", "two spans share a span id", format!("{} bulk records carry only {} distinct ids", bulk, seen.len())));
+            }
+        }
         // one id per name (unless the program makes several spans of that name), distinct ids for
         // distinct names
         let mut expected_multi: HashMap<&str, usize> = HashMap::new();
